@@ -184,16 +184,18 @@ func ruleSIB2(w *World, r *Report) {
 			r.Und("SIB-2", "anchor:"+s.fn, "", "anchor lost")
 			continue
 		}
-		info := fi.Pkg.TypesInfo
 		called := map[*types.Func]bool{}
-		ast.Inspect(fi.Decl.Body, func(n ast.Node) bool {
-			if c, ok := n.(*ast.CallExpr); ok {
-				if f := typeutil.StaticCallee(info, c); f != nil {
-					called[f.Origin()] = true
+		for _, d := range append([]*FuncInfo{fi}, w.helperDecls(fi)...) { // (a phase of the rebuild may be a function of its own)
+			info := d.Pkg.TypesInfo
+			ast.Inspect(d.Decl.Body, func(n ast.Node) bool {
+				if c, ok := n.(*ast.CallExpr); ok {
+					if f := typeutil.StaticCallee(info, c); f != nil {
+						called[f.Origin()] = true
+					}
 				}
-			}
-			return true
-		})
+				return true
+			})
+		}
 		for _, st := range setters {
 			o := w.FuncObj("pkg/core/hnsw", st)
 			if o == nil {
